@@ -114,7 +114,37 @@ func intInfo(t types.Type) (int, bool, bool) {
 }
 
 func typeKey(t types.Type) string {
-	return types.TypeString(t, func(p *types.Package) string { return p.Path() })
+	return types.TypeString(deAlias(t), func(p *types.Package) string { return p.Path() })
+}
+
+// deAlias removes type aliases (also below pointers, slices, arrays, maps and channels), so that types.BytesBuffer and
+// the parser's BytesBuffer it aliases are one type for keys and type tags.
+func deAlias(t types.Type) types.Type {
+	t = types.Unalias(t)
+	switch u := t.(type) {
+	case *types.Pointer:
+		if e := deAlias(u.Elem()); e != u.Elem() {
+			return types.NewPointer(e)
+		}
+	case *types.Slice:
+		if e := deAlias(u.Elem()); e != u.Elem() {
+			return types.NewSlice(e)
+		}
+	case *types.Array:
+		if e := deAlias(u.Elem()); e != u.Elem() {
+			return types.NewArray(e, u.Len())
+		}
+	case *types.Map:
+		k, e := deAlias(u.Key()), deAlias(u.Elem())
+		if k != u.Key() || e != u.Elem() {
+			return types.NewMap(k, e)
+		}
+	case *types.Chan:
+		if e := deAlias(u.Elem()); e != u.Elem() {
+			return types.NewChan(u.Dir(), e)
+		}
+	}
+	return t
 }
 
 // leaves flattens a Go type.
